@@ -1,22 +1,3 @@
 package main
 
-// temporary stubs, replaced as the scenarios are built
-
-type SeqScenario struct {
-	Family   string   `json:"family"`
-	HashMode string   `json:"hash_mode"`
-	Ops      []Op     `json:"ops"`
-	Replay   []uint16 `json:"replay,omitempty"`
-}
-
-func (s *SeqScenario) note(w *WorkerOut) {}
-
-type SpecialCase struct {
-	Kind          string `json:"kind"`
-	NonReplayable bool   `json:"non_replayable"`
-}
-
-func executeSeq(c *Case) *Outcome     { panic("todo") }
-func executeSpecial(c *Case) *Outcome { panic("todo") }
 func shrinkSeq(c *Case, o *Outcome, rule string) (*Case, *Outcome) { return c, o }
-func collectRaceReports(tmp, replayDir string) ([]FoundViolation, string) { return nil, "" }
